@@ -653,9 +653,11 @@ fn c15_ranged(r: &mut Rng, cnt: &mut Counters, tr: &mut Option<std::fs::File>) {
         fonts.push((format!("generated:morx-feat-cov{:x}", cov), build(&f)));
     }
     {
-        let mut f = FontSpec::basic(12);
-        let sub = |d: i16| Lookup::one(SubstSubtable::Single1 { coverage: Coverage::Glyphs(vec![1, 2, 3, 4, 5]), delta: d });
-        f.gsub = Some(Layout::with_features(vec![(*b"liga", vec![1]), (*b"smcp", vec![0])], vec![sub(5), sub(5)]));
+        // two features that are off by default, each with a visible effect of its own: smcp maps 1..5 to 6..10, ss01 then
+        // maps 1..10 to 11..20 (so a glyph shows which of the two ranges covered it)
+        let mut f = FontSpec::basic(22);
+        let sub = |n: u16, d: i16| Lookup::one(SubstSubtable::Single1 { coverage: Coverage::Glyphs((1..=n).collect()), delta: d });
+        f.gsub = Some(Layout::with_features(vec![(*b"smcp", vec![0]), (*b"ss01", vec![1])], vec![sub(5, 5), sub(10, 10)]));
         fonts.push(("generated:gsub-ranged".to_string(), build(&f)));
     }
     let dump = std::env::var("RBV_DUMP_DIR").ok();
@@ -668,6 +670,7 @@ fn c15_ranged(r: &mut Rng, cnt: &mut Counters, tr: &mut Option<std::fs::File>) {
                 path = p;
             }
         }
+        let gsub_font = name.contains("gsub");
         for j in 0..150u32 {
             let n = 2 + r.below(7) as usize;
             let dense: Vec<u32> = match r.below(3) { 0 => (0..n as u32).collect(), 1 => (0..n as u32).map(|i| i / 2).collect(), _ => (0..n as u32).map(|i| 2 * i + 1).collect() };
@@ -677,7 +680,7 @@ fn c15_ranged(r: &mut Rng, cnt: &mut Counters, tr: &mut Option<std::fs::File>) {
             let ranges: Vec<(String, u32, u32)> = (0..nf).map(|k| {
                 let a = r.below(maxc as u64 + 2) as u32;
                 let b = a + r.below((maxc + 3 - a) as u64) as u32;
-                ((if (k + j as u64) % 2 == 0 { "smcp" } else { "liga" }).to_string(), a, b)
+                ((if (k + j as u64) % 2 == 0 { "smcp" } else if gsub_font { "ss01" } else { "liga" }).to_string(), a, b)
             }).collect();
             let off = r.below(5000) as u32;
             let step = 2 + r.below(4) as u32;
@@ -692,6 +695,7 @@ fn c15_ranged(r: &mut Rng, cnt: &mut Counters, tr: &mut Option<std::fs::File>) {
                     cnt.evals += 1;
                     if o1.iter().any(|g| g.gid > 5) && o1.iter().any(|g| g.gid <= 5) {
                         cnt.nontrivial += 1;
+                        cnt.bump("ranged_feature_cases_where_the_range_shows");
                     }
                     let same = o1.len() == o2.len()
                         && o1.iter().zip(o2.iter()).all(|(a, b)| a.gid == b.gid && f(a.cluster) == b.cluster && a.xa == b.xa && a.ya == b.ya && a.xo == b.xo && a.yo == b.yo);
